@@ -89,6 +89,9 @@ def jx(n):
         # ... and counting from the other end: `loop.length - loop.revindex` is `loop.index0`, `loop.length - loop.index` is `loop.revindex0`
         if t is nodes.Sub and l == ("attr", ("name", "loop"), "length") and r[0] == "attr" and r[1] == ("name", "loop") and r[2] in ("index", "revindex"):
             return ("attr", r[1], {"revindex": "index0", "index": "revindex0"}[r[2]])
+        # ... and `loop.index0 + 1` is `loop.index` (likewise revindex)
+        if t is nodes.Add and l[0] == "attr" and l[1] == ("name", "loop") and r == ("const", 1) and l[2] in ("index0", "revindex0"):
+            return ("attr", l[1], l[2][:-1])
         return ("bin", BIN[t], l, r)
     if t is nodes.Neg:
         return ("neg", jx(n.node))
@@ -585,7 +588,9 @@ def _items(tree, body, rel, config, depth) -> list:
                                 inner[p_] = v_.value
                     out.extend(_items(tree, m.body, rel, inner, depth + 1))
                 else:
-                    out.append(("out", jx(c), c.lineno, rel))
+                    e = jx(c)
+                    lp = _join_as_loop(e, c.lineno, rel)
+                    out.append(lp if lp is not None else ("out", e, c.lineno, rel))
         elif t is nodes.If:
             out.extend(_if(tree, n, rel, config, depth))
         elif t is nodes.For:
@@ -593,8 +598,8 @@ def _items(tree, body, rel, config, depth) -> list:
             _forget(inner, [n])
             for x in n.target.find_all(nodes.Name) if not isinstance(n.target, nodes.Name) else [n.target]:
                 inner.pop(x.name, None)
-            out.append(("for", jx(n.target), jx(n.iter), tuple(_items(tree, n.body, rel, dict(inner), depth)),
-                        tuple(_items(tree, n.else_, rel, dict(inner), depth)), n.lineno, rel, jx(n.test)))
+            out.append(_unmap_loop(("for", jx(n.target), jx(n.iter), tuple(_items(tree, n.body, rel, dict(inner), depth)),
+                                    tuple(_items(tree, n.else_, rel, dict(inner), depth)), n.lineno, rel, jx(n.test))))
         elif t is nodes.Assign:
             out.append(("set", jx(n.target), jx(n.node), n.lineno, rel))
             _bind(config, n)
@@ -626,6 +631,66 @@ def _items(tree, body, rel, config, depth) -> list:
         else:
             out.append(("other", t.__name__, getattr(n, "lineno", 0), rel))
     return out
+
+
+def _binds(items, name) -> bool:
+    """is `name` (re)bound anywhere inside the items (set / setblock / loop target)?"""
+    for it, _ in walk_items(items):
+        if it[0] in ("set", "setblock", "for") and name in _targets(it[1]):
+            return True
+    return False
+
+
+def subst_items(items, env: dict):
+    """the items with the names of `env` replaced by expressions in every expression position (names are not re-bound inside)"""
+    out = []
+    for it in items:
+        k = it[0]
+        if k == "out":
+            out.append(("out", subst_names(it[1], env)) + tuple(it[2:]))
+        elif k == "set":
+            out.append(("set", it[1], subst_names(it[2], env)) + tuple(it[3:]))
+        elif k == "setblock":
+            out.append(("setblock", it[1], tuple(subst_items(it[2], env))) + tuple(it[3:]))
+        elif k == "for":
+            out.append(("for", it[1], subst_names(it[2], env), tuple(subst_items(it[3], env)), tuple(subst_items(it[4], env)), it[5], it[6],
+                        subst_names(it[7], env) if it[7] is not None else None))
+        elif k == "if":
+            out.append(("if", subst_names(it[1], env), tuple(subst_items(it[2], env)), tuple(subst_items(it[3], env))) + tuple(it[4:]))
+        else:
+            out.append(it)
+    return out
+
+
+def _unmap_loop(lp):
+    """`{% for x in S | map(attribute="a") %} .. x ..`  is  `{% for x in S %} .. x.a ..`  (and `| map("f", args)`: `x | f(args)`):
+    map keeps number and order of the items, so `loop.*` is unchanged; the loop then iterates the base sequence, which is what the
+    rules about iteration domains look at.  Left alone when the loop variable is re-bound inside the body."""
+    tg, it = lp[1], lp[2]
+    if tg is None or tg[0] != "name" or it is None or it[0] != "filter" or it[1] != "map":
+        return lp
+    base, elt = elementwise(it, tg)
+    if base == it or _binds(lp[3] + lp[4], tg[1]):
+        return lp
+    env = {tg[1]: elt}
+    return ("for", tg, base, tuple(subst_items(lp[3], env)), lp[4], lp[5], lp[6], subst_names(lp[7], env) if lp[7] is not None else None)
+
+
+def _join_as_loop(e, line, rel):
+    """`{{ S | map(..) | join }}` (no separator) prints what `{% for x in S %}{{ x | .. }}{% endfor %}` prints: presented as that
+    loop, so that a statement list pasted by a filter chain is seen by the rules that look for the loop over it"""
+    if e[0] == "filter" and e[1] == "join" and not e[4] and (not e[3] or e[3] == (("const", ""),)) and e[2][0] == "filter" and e[2][1] == "map":
+        v = ("name", "_joined_item")
+        base, elt = elementwise(e[2], v)
+        if base != e[2] and not (base[0] == "filter" and base[1] == "map"):
+            # literal text glued on by `| prefix(..)` / `| suffix(..)` / `~` is text of the loop body
+            pieces = str_pieces(elt)
+            if any(p_[0] == "fmt" for p_ in pieces):
+                body = (("out", elt, line, rel),)
+            else:
+                body = tuple(("text", p_[1], line, rel) if p_[0] == "lit" else ("out", p_[1], line, rel) for p_ in pieces)
+            return ("for", v, base, body, (), line, rel, None)
+    return None
 
 
 def _if(tree, n, rel, config, depth) -> list:
